@@ -56,7 +56,7 @@ def jobs(tier):
             jobs.append(Job(H, dict(length=2, first=f), pkg_key='default',
                             max_paths=5000, max_int_values=8, validate=1))
         # link chains and collisions need three declarations
-        for f in ([1, 0], [0, 0], [2, 1], [1, 2]):
+        for f in ([1, 0], [0, 0]):
             jobs.append(Job(H, dict(length=3, first=f), pkg_key='default',
                             max_paths=5000, max_int_values=8, validate=1))
     return jobs
